@@ -1253,7 +1253,12 @@ pub fn process_complete_version<T: Deref<Target = rusqlite::Connection> + Commit
         ts,
     } = parts;
 
-    let len = changes.len();
+    // rows may share a seq (see ChunkedChanges), so count distinct seqs
+    let len = {
+        let mut distinct_seqs: Vec<_> = changes.iter().map(|change| change.seq).collect();
+        distinct_seqs.dedup();
+        distinct_seqs.len()
+    };
 
     debug!(%actor_id, %version, "complete change, applying right away! seqs: {seqs:?}, last_seq: {last_seq}, changes len: {len}, db version: {version}");
 
